@@ -1048,8 +1048,12 @@ class Checker:
                             and gid in self.guard_ids(nxt) and not self.validator_ids(nxt)):
                         self._leave_candidate(ctx, f"guard {gid} of the next candidate was evaluated")
                         continue
-                    # repeated evaluation of a (pure) guard: only outcomes are judged (H2)
+                    # a guard of this candidate evaluated a second time for the same event: every entry
+                    # of the generated machines names a guard once, so this is a provider attached twice
                     self.stats["repeated_guard_evals"] = self.stats.get("repeated_guard_evals", 0) + 1
+                    if ev.get("tok") is not None:
+                        # (token-less reads of property guards cannot be told from the next event's: H2)
+                        self.soft("C12.attached-once", f"guard {gid} of t{t['i']} evaluated more than once for event {ctx.event}/{ctx.tok}")
                     return
                 # not a guard of this candidate: a later candidate (or, token-less, a later event)
                 if self.enabled(t) and not self.raising_validators(t) and tok is None and self.rtc:
